@@ -64,6 +64,8 @@ ASSUMPTIONS = [
 TRUSTED_EXTRA = [
     "harness/ss_common.py (value encoding, real-store executor, Python reference PySpec, generators), harness/ss_models.py",
     "harness/gen/statestore.py: AST extraction of MAX_DEPTH and of the lock/copy/merge shape flags",
+    "harness/sloop.py: every store call runs as a real task on a scripted virtual-time event loop (a running loop, "
+    "current_task and timers exist for the code under test)",
 ]
 
 MODEL = "statestore"
